@@ -586,6 +586,15 @@ func OpenWith(path string, vLogs []appendable.Appendable, txLog, cLog appendable
 			break
 		}
 
+		// Values are appended to a value log before the tx record is written, but nothing orders
+		// their way to the disk before sync(): a record whose values are missing or damaged was
+		// never durable (hence never acknowledged) and must not be reloaded, otherwise the next
+		// sync would commit a transaction whose values cannot be read.
+		if !precommittedValuesReadable(tx, vLogs) {
+			opts.logger.Infof("%v: values not found, discarding pre-committed transaction: %d", ErrCorruptedData, precommittedTxID+1)
+			break
+		}
+
 		precommittedTxID++
 		precommittedAlh = tx.header.Alh()
 
@@ -776,6 +785,37 @@ func OpenWith(path string, vLogs []appendable.Appendable, txLog, cLog appendable
 	}
 
 	return store, nil
+}
+
+// precommittedValuesReadable reports whether every value referenced by a pre-committed transaction
+// found in the tx log is present in its value log and matches the digest stored in the tx record.
+func precommittedValuesReadable(tx *Tx, vLogs []appendable.Appendable) bool {
+	if len(vLogs) == 0 {
+		return true // embedded values are part of the tx log
+	}
+
+	for _, e := range tx.Entries() {
+		if e.vLen == 0 {
+			continue
+		}
+
+		vLogID, off := decodeOffset(e.vOff)
+		if vLogID == 0 {
+			continue // value was not stored in any vlog (truncated transaction)
+		}
+		if int(vLogID) > len(vLogs) {
+			return false
+		}
+
+		b := make([]byte, e.vLen)
+
+		n, err := vLogs[vLogID-1].ReadAt(b, off)
+		if err != nil || n != e.vLen || e.hVal != sha256.Sum256(b) {
+			return false
+		}
+	}
+
+	return true
 }
 
 func (s *ImmuStore) syncer() {
